@@ -54,7 +54,7 @@ func replayCex(prop string, h *HarnessRun, cx *Counterexample) {
 	for k, v := range cx.Model {
 		doc.Assignment[k] = v
 	}
-	dir := filepath.Join(verifDir, "replays", prop)
+	dir := filepath.Join(replaysDir(), prop)
 	os.MkdirAll(dir, 0o755)
 	safe := regexp.MustCompile(`[^A-Za-z0-9_.-]+`).ReplaceAllString(cx.Obligation, "_")
 	path := filepath.Join(dir, fmt.Sprintf("%s-%s.json", cx.Harness, safe))
@@ -464,4 +464,13 @@ func rewriteForStubs(pkgPath string, ovSrc map[string][]byte, stubs map[string]b
 		out[fname] = buf.Bytes()
 	}
 	return out, nil
+}
+
+// replaysDir: where counterexample replay files are written (VERIF_REPLAYS
+// overrides it for seed evaluations that run beside the registered checks).
+func replaysDir() string {
+	if d := os.Getenv("VERIF_REPLAYS"); d != "" {
+		return d
+	}
+	return filepath.Join(verifDir, "replays")
 }
